@@ -93,6 +93,22 @@ pub struct ProcessorHandle(u32);
 #[derive(Copy, Clone, Debug)]
 pub struct CacheHandle(u32);
 
+#[cfg(rust_vmm_acpi_tables_verif)]
+impl ProcessorHandle {
+    /// Verification hook: raw table offset carried by this handle.
+    pub fn verif_raw(&self) -> u32 {
+        self.0
+    }
+}
+
+#[cfg(rust_vmm_acpi_tables_verif)]
+impl CacheHandle {
+    /// Verification hook: raw table offset carried by this handle.
+    pub fn verif_raw(&self) -> u32 {
+        self.0
+    }
+}
+
 #[repr(u8)]
 enum NodeType {
     Processor = 0,
